@@ -47,6 +47,9 @@ def _run_unit(modname, uid, tier, prop, kf_entries, timeout_s):
             regions = getattr(m, "REGIONS", {})
             u.kf = []
             for k in kf_entries:
+                import fnmatch as _fn
+                if not _fn.fnmatch(u.uid, k["obligation"].split("/")[0]):
+                    continue            # finding of another unit
                 reg = regions.get(k.get("region_id")) if k.get("region_id") else None
                 if k.get("region_id") and reg is None:
                     raise RuntimeError("known finding %s names unknown region %s" % (k["id"], k["region_id"]))
@@ -156,6 +159,11 @@ def report(prop, tier, seed, results, extra, kf_entries, a, t0):
                     samples.append({k: ob[k] for k in ("name", "goal", "backend", "secs")})
             elif ob["status"] == "known-finding":
                 pass
+            elif ob["status"] == "failed" and ob["kind"] == "subset":
+                # a modelling-limit obligation (e.g. "branch with an unmodelled construct is unreachable") that
+                # does not hold means the subject left the verifiable subset: undecided, never a violation
+                ob["note"] = (ob.get("note") or "") + " [modelling limit reached]"
+                unknown.append((r.unit_id, ob))
             elif ob["status"] == "failed":
                 failed.append((r.unit_id, ob))
             else:
